@@ -137,3 +137,57 @@ func VerifC10_ConsistentTokens() {
 		verif.Assert(verif.Eq(back1.([]byte), v1), "first-token-still-reveals-first-value")
 	}
 }
+
+// VerifC10_ConsistentTokenTypes: the same guarantees for the other token types (string, e-mail, 32-bit integer):
+// a value keeps its token, the owner gets the value back from the token, and two different values never share one.
+func VerifC10_ConsistentTokenTypes() {
+	p, _ := verifPseudo()
+	ctxA := common.TokenContext{ClientID: []byte("A")}
+	var v1, v2 interface{}
+	var tt common.TokenType
+	switch verif.Choose("type", 0, 2) {
+	case 0:
+		tt = common.TokenType_String
+		a, b := verif.Bytes("s1", 2), verif.Bytes("s2", 2)
+		for _, x := range append(append([]byte{}, a...), b...) {
+			_ = x
+		}
+		for i := range a {
+			verif.Assume(verif.And(a[i] >= 'a', a[i] <= 'd', b[i] >= 'a', b[i] <= 'd'))
+		}
+		verif.Assume(!verif.Eq(a, b))
+		v1, v2 = string(a), string(b)
+	case 1:
+		tt = common.TokenType_Email
+		a, b := verif.U8("e1"), verif.U8("e2")
+		verif.Assume(verif.And(a >= 'a', a <= 'd', b >= 'a', b <= 'd', a != b))
+		v1, v2 = common.Email(string([]byte{a, '@', 'x', '.', 'i', 'o'})), common.Email(string([]byte{b, '@', 'x', '.', 'i', 'o'}))
+	case 2:
+		tt = common.TokenType_Int32
+		a, b := verif.I32("i1"), verif.I32("i2")
+		verif.Assume(a != b)
+		v1, v2 = a, b
+	}
+	t1, err := p.AnonymizeConsistently(v1, ctxA, tt)
+	verif.Assert(err == nil, "tokenize-v1")
+	if err != nil {
+		return
+	}
+	t1b, err := p.AnonymizeConsistently(v1, ctxA, tt)
+	verif.Reach("tokenized-twice")
+	verif.Assert(err == nil, "tokenize-v1-again")
+	if err != nil {
+		return
+	}
+	verif.Assert(verif.DeepEqual(t1b, t1), "same-value-same-token")
+	back, err := p.Deanonymize(t1, ctxA, tt)
+	verif.Assert(err == nil, "detokenize-owner")
+	if err == nil {
+		verif.Assert(verif.DeepEqual(back, v1), "owner-gets-original")
+	}
+	t2, err := p.AnonymizeConsistently(v2, ctxA, tt)
+	if err != nil {
+		return
+	}
+	verif.Assert(!verif.DeepEqual(t2, t1), "different-values-different-tokens")
+}
